@@ -694,10 +694,13 @@ def run_drop_suite(self, ctx, stats):
                 if l.startswith('case '): cur = int(l.split()[1]) if int(l.split()[1]) in want else None
                 if cur is not None: texts[cur] = texts.get(cur, '') + l
             for cid, what in bad_ids:
-                if 'timeout' in what:
+                if 'timeout' in what or 'never released' in what:
+                    # both diagnoses are wall-clock limits (3 s / 12 s) and may be scheduling noise on a loaded machine: the case
+                    # counts only if it fails again when replayed alone
                     one = os.path.join(ctx.work, f'drop-{name}-retry{cid}.cases'); open(one, 'w').write(texts.get(cid, ''))
                     again = [common.sh([os.path.join(bindir, 'droprun'), one], timeout=600)[1] for _ in range(2)]
-                    if not all('MISMATCH' in a for a in again): ok += 1; continue
+                    if not all('MISMATCH' in a for a in again):
+                        ok += 1; ctx.notes.setdefault('drop_timeouts_not_reproduced', []).append(cid); continue
                 self.script_bad.append((f'[{name}] ' + what, texts.get(cid, ''), path))
         if rc not in (0, 1) and not self.script_bad:
             self.script_bad.append((f'droprun exited with code {rc}', res[-2000:], path))
